@@ -21,8 +21,8 @@ const (
 func init() {
 	register(Property{ID: "C25", Level: "other", Run: runC25,
 		Technique: "static analysis: must-pass-through path conditions and value shapes on the SSA of Estimator.Estimate, whole-module who-may-write on the reference fields and constructor literals",
-		Text: "Decides on every path of (*Estimator).Estimate: the wall clock is read exactly once and stripped of its monotonic reading; every returned value is either that reading or computed = refNTP + scale(pts - refPTS, 1 s, ClockRate); computed is returned only when neither computed.After(now) nor computed.Before(now - 5 s) held (the constant is 5 s); every return of `now` re-bases both refNTP := now and refPTS := pts and the steady path stores nothing, so consecutive steady results share one base; the first call (refNTP unset) re-bases; refNTP/refPTS are written nowhere else in the module; every Estimator literal in the module sets ClockRate and every Estimate call site passes the unit's/sample's PTS. Not decided: time.Time arithmetic, exactness of the scale helper (C24), that ClockRate is the clock rate of the PTS passed in.",
-		Note: "trusted: package time (After/Before/Add/Round), the scale helper (decided by C24)"})
+		Text:      "Decides on every path of (*Estimator).Estimate: the wall clock is read exactly once and stripped of its monotonic reading; every returned value is either that reading or computed = refNTP + scale(pts - refPTS, 1 s, ClockRate); computed is returned only when neither computed.After(now) nor computed.Before(now - 5 s) held (the constant is 5 s); every return of `now` re-bases both refNTP := now and refPTS := pts and the steady path stores nothing, so consecutive steady results share one base; the first call (refNTP unset) re-bases; refNTP/refPTS are written nowhere else in the module; every Estimator literal in the module sets ClockRate and every Estimate call site passes the unit's/sample's PTS. Not decided: time.Time arithmetic, exactness of the scale helper (C24), that ClockRate is the clock rate of the PTS passed in.",
+		Note:      "trusted: package time (After/Before/Add/Round), the scale helper (decided by C24)"})
 	addMutants(
 		Mutant{"C25", "future-not-rejected", "internal/ntpestimator/estimator.go",
 			"if computed.After(now) || computed.Before(now.Add(-maxTimeDifference)) {", "if computed.Before(now.Add(-maxTimeDifference)) {", "C25.bound"},
@@ -42,6 +42,11 @@ func init() {
 			"	return computed\n}", "	e.refPTS = pts\n	return computed\n}", "C25.steady"},
 		Mutant{"C25", "formula-operands-swapped", "internal/ntpestimator/estimator.go",
 			"multiplyAndDivide(time.Duration(pts-e.refPTS), time.Second, time.Duration(e.ClockRate))", "multiplyAndDivide(time.Duration(pts-e.refPTS), time.Duration(e.ClockRate), time.Second)", "C25.formula"},
+		// premise of the "reference unset" test: the value refNTP is compared with is the zero time on every run
+		Mutant{"C25", "unset-sentinel-written", "internal/ntpestimator/estimator.go",
+			"	now = now.Round(0)\n", "	now = now.Round(0)\n	zero = now\n", "C25.bound.reference_set"},
+		Mutant{"C25", "unset-sentinel-not-zero", "internal/ntpestimator/estimator.go",
+			"var zero = time.Time{}", "var zero = time.Unix(0, 0)", "C25.bound.reference_set"},
 		Mutant{"C25", "estimator-without-clockrate", "internal/protocols/hls/to_stream.go",
 			"ntpEstimator := &ntpestimator.Estimator{ClockRate: track.ClockRate}", "ntpEstimator := &ntpestimator.Estimator{}", "C25.users"},
 	)
@@ -119,11 +124,27 @@ func runC25(c *Ctx) {
 	}
 	retComputed, retNow := isRet(c25Computed), isRet(c25Now)
 
+	// the "reference unset" test, by meaning: every boolean value of Estimate that
+	// is true exactly when refNTP is the zero instant (prop_gen_c25.go). When none
+	// is found the baseline spelling is required (and reported as missing).
+	unsetAtoms := c25UnsetAtoms(p, est)
+	var unsetF, rebaseWhen []LitPat
+	for _, a := range unsetAtoms {
+		unsetF = append(unsetF, F(a))
+		rebaseWhen = append(rebaseWhen, T(a))
+	}
+	rebaseWhen = append(rebaseWhen, T(c25After), T(c25Before))
+
 	// ---- bound clause
 	if countTargets(est, retComputed) > 0 {
 		c.MustPass(p, est, "C25.bound.not_future", "return computed", retComputed, F(c25After))
 		c.MustPass(p, est, "C25.bound.not_older_than_5s", "return computed", retComputed, F(c25Before))
-		c.MustPass(p, est, "C25.bound.reference_set", "return computed", retComputed, F(c25Unset))
+		if len(unsetF) > 0 {
+			c.MustPass(p, est, "C25.bound.reference_set", "return computed", retComputed, unsetF...)
+		} else {
+			c.Check("C25.bound.reference_set", fnName(est)+": return computed ⇒ "+altsStr([]LitPat{F(c25Unset)}), false, p.Pos(est.Pos()),
+				"no test of `refNTP is the zero instant` found: wanted refNTP.IsZero(), or Equal/== against a value that is the zero time.Time on every run (a package variable must never be stored a non-zero value)")
+		}
 	} else {
 		c.Check("C25.formula", fnName(est)+": a return of computed = "+c25Computed+" exists", false, p.Pos(est.Pos()), "steady-state formula not found")
 	}
@@ -149,7 +170,7 @@ func runC25(c *Ctx) {
 		c.MustPrecede(p, est, "C25.rebase", "return now", "refNTP := now", retNow, storeTo("refNTP", c25Now))
 		c.MustPrecede(p, est, "C25.rebase", "return now", "refPTS := pts", retNow, storeTo("refPTS", "$1"))
 		// `now` is returned only when the reference was unset or computed was out of bounds
-		c.MustPass(p, est, "C25.rebase.only_when_needed", "return now", retNow, T(c25Unset), T(c25After), T(c25Before))
+		c.MustPass(p, est, "C25.rebase.only_when_needed", "return now", retNow, rebaseWhen...)
 	}
 	// every store to the reference fields is one of the two re-base stores
 	nst := 0
